@@ -10,13 +10,13 @@ HOOK_COMMITS = subprocess.run(["git", "-C", "/repo", "log", "--format=%h %s", "-
 CHECKS = {
     "C03": dict(
         category="proof",
-        text="Lean theorems (transparency, no_early_end, marker_last, frames_assoc, stuffing_bounds) prove for every byte "
+        text="Lean theorems (transparency, no_early_end, marker_last, marker_once, frames_assoc, stuffing_bounds) prove for every byte "
              "string that an RFC 5321 4.5.2 receiver reconstructs message+CRLF from what the modelled codec writes and is "
              "not done before the last octet. The model is tied to the code by an exhaustive comparison of the codec's "
              "3x256 transition table through a hook, by all short strings over a CR/LF/dot alphabet, and by running the "
              "real sync and tokio message() against a loopback sink and applying the receiver to the captured octets.",
         design_ref="DESIGN.md 5 C03",
-        note="Trusted: Lean kernel; axioms propext/Quot.sound; Spec/DataServer.lean as the reading of RFC 5321; the hand-written "
+        note="Trusted: Lean kernel; axioms propext/Quot.sound/Classical.choice; Spec/DataServer.lean as the reading of RFC 5321; the hand-written "
              "model + correspondence harness (exhaustive for the transition table, sampled for whole messages); TCP loopback.",
         technique="Lean 4 proof by induction over the message + exhaustive/sampled model-vs-code correspondence"),
     "C15": dict(
